@@ -212,6 +212,35 @@ func sameGeom(want, got orb.Geometry) error {
 	return nil
 }
 
+// ownGeometry assembles the orb.Geometry a decoded *geojson.Geometry holds from
+// its exported fields, without calling its Geometry() accessor: Coordinates if
+// set, else the collection of its Geometries (a nil member is a null geometry).
+func ownGeometry(g *geojson.Geometry) orb.Geometry {
+	if g == nil {
+		return nil
+	}
+	if g.Coordinates != nil {
+		return g.Coordinates
+	}
+	c := make(orb.Collection, len(g.Geometries))
+	for i, m := range g.Geometries {
+		c[i] = ownGeometry(m)
+	}
+	return c
+}
+
+// decodedGeom compares a decoded *Geometry with the expectation twice: through
+// the fields (harness's own assembly) and through the Geometry() accessor.
+func decodedGeom(want orb.Geometry, g *geojson.Geometry) error {
+	if err := sameGeom(want, ownGeometry(g)); err != nil {
+		return fmt.Errorf("fields of the decoded *Geometry: %v", err)
+	}
+	if err := sameGeom(want, g.Geometry()); err != nil {
+		return fmt.Errorf("decoded.Geometry(): %v", err)
+	}
+	return nil
+}
+
 // ---------------------------------------------------------------- JSON value relation
 
 func toBig(v interface{}) (*big.Float, bool) {
@@ -783,14 +812,14 @@ func checkGeometry(g orb.Geometry, direct bool) error {
 		// the check accepts an error here and, if decoding succeeds, demands the
 		// null geometry (see assumptions; TestKnownTopLevelEmptyCollection).
 		if dec, err := geojson.UnmarshalGeometry(m1); err == nil && dec != nil {
-			if err := sameGeom(nil, dec.Geometry()); err != nil {
+			if err := decodedGeom(nil, dec); err != nil {
 				return fmt.Errorf("JSON decode of top-level empty collection: %v", err)
 			}
 		}
 		if b, err := bson.Marshal(mk()); err == nil {
 			bd := &geojson.Geometry{}
 			if err := bson.Unmarshal(b, bd); err == nil {
-				if err := sameGeom(nil, bd.Geometry()); err != nil {
+				if err := decodedGeom(nil, bd); err != nil {
 					return fmt.Errorf("BSON decode of top-level empty collection: %v", err)
 				}
 			}
@@ -803,7 +832,7 @@ func checkGeometry(g orb.Geometry, direct bool) error {
 	if err != nil {
 		return fmt.Errorf("UnmarshalGeometry(%s): %v", clip(m1), err)
 	}
-	if err := sameGeom(want, dec.Geometry()); err != nil {
+	if err := decodedGeom(want, dec); err != nil {
 		return fmt.Errorf("JSON round trip: %v; text %s", err, clip(m1))
 	}
 	if dec.Type != typeName(want) {
@@ -813,7 +842,7 @@ func checkGeometry(g orb.Geometry, direct bool) error {
 	if err := json.Unmarshal(m1, dec2); err != nil {
 		return fmt.Errorf("json.Unmarshal into *Geometry: %v", err)
 	}
-	if err := sameGeom(want, dec2.Geometry()); err != nil {
+	if err := decodedGeom(want, dec2); err != nil {
 		return fmt.Errorf("json.Unmarshal round trip: %v", err)
 	}
 	// fixed point
@@ -841,7 +870,7 @@ func checkGeometry(g orb.Geometry, direct bool) error {
 	if err := bson.Unmarshal(b, bd); err != nil {
 		return fmt.Errorf("bson.Unmarshal(%s): %v", clip([]byte(bson.Raw(b).String())), err)
 	}
-	if err := sameGeom(want, bd.Geometry()); err != nil {
+	if err := decodedGeom(want, bd); err != nil {
 		return fmt.Errorf("BSON round trip: %v; document %s", err, clip([]byte(bson.Raw(b).String())))
 	}
 	if bd.Type != typeName(want) {
@@ -1002,8 +1031,30 @@ func helperOf(g orb.Geometry) interface{} {
 	return nil
 }
 
+// helperValue converts the decoded helper value to its orb type by plain type
+// conversion (the harness's own mapping) and requires the helper's Geometry()
+// method to agree with it.
 func helperValue(p interface{}) orb.Geometry {
-	return reflect.ValueOf(p).Elem().Interface().(helper).Geometry()
+	var own orb.Geometry
+	switch v := p.(type) {
+	case *geojson.Point:
+		own = orb.Point(*v)
+	case *geojson.MultiPoint:
+		own = orb.MultiPoint(*v)
+	case *geojson.LineString:
+		own = orb.LineString(*v)
+	case *geojson.MultiLineString:
+		own = orb.MultiLineString(*v)
+	case *geojson.Polygon:
+		own = orb.Polygon(*v)
+	case *geojson.MultiPolygon:
+		own = orb.MultiPolygon(*v)
+	}
+	via := reflect.ValueOf(p).Elem().Interface().(helper).Geometry()
+	if ok, why := gen.SameBits(own, via); !ok {
+		panic(fmt.Sprintf("helper %T: Geometry() disagrees with the value it wraps: %s", p, why))
+	}
+	return own
 }
 
 // checkHelper: the document of g (written by the helper type of g's kind when
@@ -1092,7 +1143,7 @@ func checkHelper(g orb.Geometry, target string) error {
 
 // ---------------------------------------------------------------- generators
 
-var geomOpts = gen.Opts{Empty: true, EmptyMembers: true, Degenerate: true, MaxDepth: 3, MaxLen: 4}
+var geomOpts = gen.Opts{Empty: true, EmptyMembers: true, Degenerate: true, MaxDepth: 3, MaxLen: 4, InvertedBnd: true}
 
 // genGeom draws from the shared geometry universe; one draw in six is forced to
 // be a collection of 1..4 members (the universe picks kinds uniformly, which
@@ -1331,9 +1382,50 @@ func jsonNumberForm(f float64) (exponent, digits17 bool) {
 type traits struct {
 	nested, exponent, digits17, negZero, emptyMember, emptyColl bool
 	container, foreign                                          bool
+	boundInverted, boundFlat, ringOpen, ringShort               bool
+}
+
+// corner walks g for the inputs on which the core helpers the codec depends on
+// (Bound.ToPolygon/ToRing, GeoJSONType) have corner cases; decided by the
+// harness's own comparisons.
+func (tr *traits) corner(g orb.Geometry) {
+	ring := func(r orb.Ring) {
+		if len(r) < 4 {
+			tr.ringShort = true
+		}
+		if len(r) > 0 && r[0] != r[len(r)-1] {
+			tr.ringOpen = true
+		}
+	}
+	switch v := g.(type) {
+	case orb.Bound:
+		if v.Min[0] > v.Max[0] || v.Min[1] > v.Max[1] {
+			tr.boundInverted = true
+		}
+		if v.Min[0] == v.Max[0] || v.Min[1] == v.Max[1] {
+			tr.boundFlat = true
+		}
+	case orb.Ring:
+		ring(v)
+	case orb.Polygon:
+		for _, r := range v {
+			ring(r)
+		}
+	case orb.MultiPolygon:
+		for _, p := range v {
+			for _, r := range p {
+				ring(r)
+			}
+		}
+	case orb.Collection:
+		for _, m := range v {
+			tr.corner(m)
+		}
+	}
 }
 
 func (tr *traits) geom(g orb.Geometry) {
+	tr.corner(g)
 	if gen.Depth(g) >= 2 {
 		tr.nested = true
 	}
@@ -1436,6 +1528,10 @@ func classify(c Case) {
 	flag(tr.emptyMember, "trait:empty member")
 	flag(tr.emptyColl, "trait:empty collection (top or nested)")
 	flag(tr.container, "trait:array/object property or foreign member")
+	flag(tr.boundInverted, "trait:bound with Min > Max on an axis")
+	flag(tr.boundFlat, "trait:bound of zero width or height")
+	flag(tr.ringOpen, "trait:unclosed ring")
+	flag(tr.ringShort, "trait:ring with fewer than 4 points")
 	if tr.nested || tr.container || tr.foreign || tr.exponent || tr.digits17 {
 		stats.NonTrivial(gen.JSON(c))
 		if stats.WantSample(c.Kind) {
